@@ -498,3 +498,9 @@ impl Property for C07 {
 fn main() {
     engine::main::<C07>()
 }
+
+/// entry point of the libFuzzer target `fuzz/fuzz_targets/c07.rs`
+#[allow(dead_code)]
+pub fn fuzz(data: &[u8]) {
+    engine::fuzz_one::<C07>(data)
+}
